@@ -1385,3 +1385,100 @@ func c09r10(rc *core.RC) {
 		rc.OK(key, addNode.Pos(), "`%s` lies on every path from the Read call to a return", core.Src(p.Fset, addNode))
 	}
 }
+
+// ---- C09.R11 a scanning loop that advances first re-examines the byte it refilled on ----
+
+// The digit scanners of stream mode are loops that begin with `s.cursor++` and then classify
+// s.char(). When the classified byte is the NUL sentinel and s.read() delivers more input, the byte
+// now at the cursor has not been looked at: the loop must step the cursor back before `continue`
+// (the loop head advances again), otherwise the first byte of the new piece is swallowed into the
+// token whatever it is.
+func c09r11(rc *core.RC) {
+	p := rc.P
+	n := 0
+	for _, fd := range p.Funcs("decoder") {
+		if fd.Body == nil {
+			continue
+		}
+		info := p.Info(fd)
+		fn := p.FuncName(fd)
+		isCursor := func(e ast.Expr) bool {
+			f := core.FieldOf(info, e)
+			return f != nil && f.Name() == "cursor" && strings.HasSuffix(f.Pkg().Path(), "internal/decoder")
+		}
+		k := 0
+		ast.Inspect(fd.Body, func(m ast.Node) bool {
+			loop, ok := m.(*ast.ForStmt)
+			if !ok || loop.Cond != nil || len(loop.Body.List) == 0 {
+				return true
+			}
+			first, ok := loop.Body.List[0].(*ast.IncDecStmt)
+			if !ok || first.Tok != token.INC || !isCursor(first.X) {
+				return true
+			}
+			// does the loop refill?
+			refills := false
+			ast.Inspect(loop.Body, func(x ast.Node) bool {
+				if c, ok := x.(*ast.CallExpr); ok && core.CalleeName(info, c) == "decoder.Stream.read" {
+					refills = true
+				}
+				return true
+			})
+			if !refills {
+				return true
+			}
+			n++
+			k++
+			rc.Touch(fn)
+			key := fmt.Sprintf("%s/advance-first-loop#%d retake-after-refill", fn, k)
+			// every `continue` that can follow a successful read() is directly preceded by `s.cursor--`
+			bad := token.NoPos
+			var walk func(list []ast.Stmt, afterRead bool)
+			walk = func(list []ast.Stmt, afterRead bool) {
+				for i, st := range list {
+					switch x := st.(type) {
+					case *ast.IfStmt:
+						callsRead := false
+						ast.Inspect(x.Cond, func(c ast.Node) bool {
+							if ce, ok := c.(*ast.CallExpr); ok && core.CalleeName(info, ce) == "decoder.Stream.read" {
+								callsRead = true
+							}
+							return true
+						})
+						walk(x.Body.List, afterRead || callsRead)
+						switch e := x.Else.(type) {
+						case *ast.BlockStmt:
+							walk(e.List, afterRead)
+						case *ast.IfStmt:
+							walk([]ast.Stmt{e}, afterRead)
+						}
+					case *ast.BranchStmt:
+						if x.Tok == token.CONTINUE && afterRead {
+							stepped := false
+							if i > 0 {
+								if d, ok := list[i-1].(*ast.IncDecStmt); ok && d.Tok == token.DEC && isCursor(d.X) {
+									stepped = true
+								}
+							}
+							if !stepped && bad == token.NoPos {
+								bad = x.Pos()
+							}
+						}
+					case *ast.BlockStmt:
+						walk(x.List, afterRead)
+					}
+				}
+			}
+			walk(loop.Body.List[1:], false)
+			if bad == token.NoPos {
+				rc.OK(key, loop.Pos(), "after a refill the cursor is stepped back before the loop advances again")
+			} else {
+				rc.Bad(key, bad, "this `continue` follows a successful s.read() without `s.cursor--`: the loop head advances past the first byte of the new piece before it was classified, so a delimiter that arrives at a read boundary becomes part of the number")
+			}
+			return false
+		})
+	}
+	if n < 4 {
+		rc.Unknown("decoder/advance-first-loops", token.NoPos, "found %d refilling loops that begin with s.cursor++ (floatBytes, intDecoder ×2, uintDecoder expected)", n)
+	}
+}
